@@ -268,6 +268,16 @@ def fast_reply_rules(fx, v, prop):
                     v.check(f.n == 'dispatch', 'R-DOM', 'replies::%s stores a fast reply [%s]' % (f.n, f.tu),
                             'fast replies are stored only by dispatch()', key='%s:R-DOM:fast-reply-writer:%s' % (prop, f.n),
                             where='%s:%d' % (f.path_file(), l))
+    # the registry is edited one entry at a time: the entry that was found and is being consumed - never a range
+    # (a range erase silently discards the acknowledgements parked after the one being picked up)
+    for f in fx.fns:
+        if f.cls != 'replies' or f.lam or not f.path_file().endswith('impl/replies.hpp'):
+            continue
+        for b_, i_, l_, c in f.calls():
+            if callee_name(c) == 'erase' and 'obj' in c and (is_member_of_this(c['obj'], '_fast_replies') or is_member_of_this(c['obj'], '_handlers')):
+                v.check(len(c.get('args', [])) == 1, 'R-DOM', 'replies::%s erases one entry @%s [%s]' % (f.n, l_, f.tu),
+                        'erase() removes exactly the entry found (%d argument(s))' % len(c.get('args', [])),
+                        key='%s:R-DOM:replies::%s:single-erase' % (prop, f.n), where='%s:%s' % (f.path_file(), l_))
     for f in fx.functions(cls='replies', name='async_wait_reply'):
         v.saw(f)
         erases = [c for _, _, _, c in f.calls() if callee_name(c) == 'erase' and 'obj' in c and is_member_of_this(c['obj'], '_fast_replies')]
